@@ -285,3 +285,34 @@ func VerifC20_OrderIndependent3() {
 	verif.Assert(verif.DeepEq(base, other), "directive is independent of the order of distinct instructions")
 	verif.Reached("end")
 }
+
+// interpreting is a pure function of the instruction list: parsing the same list
+// again (any role order) gives the same result and leaves the instructions untouched.
+func VerifC20_Repeatable() {
+	verif.NoPanic()
+	verif.Bound("C20 repeat", "2 instructions: a DNS name (1..2 symbolic bytes) and an external-RV instruction [mechanism (1..3 symbolic bytes), 0..2 arguments]; parsed as device, owner, device")
+	s := verif.String("dns", 1+verif.Choose("dnslen", 2))
+	mech := verif.String("mech", 1+verif.Choose("mechlen", 3))
+	ext := []any{mech}
+	for i, n := 0, verif.Choose("nargs", 3); i < n; i++ {
+		ext = append(ext, int64(verif.U8("arg")))
+	}
+	info := [][]RvInstruction{{
+		{Variable: RVDns, Value: vEnc(s)},
+		{Variable: RVExtRV, Value: vEnc(ext)},
+	}}
+	if verif.Choose("extfirst", 2) == 1 {
+		info[0][0], info[0][1] = info[0][1], info[0][0]
+	}
+	before := [][]byte{append([]byte{}, info[0][0].Value...), append([]byte{}, info[0][1].Value...)}
+	d1 := ParseDeviceRvInfo(info)
+	o1 := ParseOwnerRvInfo(info)
+	d2 := ParseDeviceRvInfo(info)
+	o2 := ParseOwnerRvInfo(info)
+	verif.Assert(verif.BytesEq(info[0][0].Value, before[0]) && verif.BytesEq(info[0][1].Value, before[1]), "interpreting rendezvous info does not modify the instructions")
+	verif.Assert(len(d1) == 1 && len(d2) == 1 && len(o1) == 1 && len(o2) == 1, "one directive per list")
+	verif.Assert(verif.StrEq(d1[0].ExtMechanism, mech) && verif.StrEq(d2[0].ExtMechanism, mech) && verif.StrEq(o1[0].ExtMechanism, mech) && verif.StrEq(o2[0].ExtMechanism, mech), "the external-RV mechanism is the first array element, on every pass")
+	verif.Assert(verif.BytesEq(d1[0].ExtArguments, d2[0].ExtArguments) && verif.BytesEq(o1[0].ExtArguments, o2[0].ExtArguments) && verif.BytesEq(d1[0].ExtArguments, o1[0].ExtArguments), "the external-RV arguments are the same on every pass")
+	verif.Assert(len(d1[0].URLs) == len(d2[0].URLs) && len(o1[0].URLs) == len(o2[0].URLs), "the same addresses on every pass")
+	verif.Reached("end")
+}
